@@ -34,6 +34,11 @@ type vFakeManager struct {
 	// others wait for, which stops a bubble's virtual clock)
 	authYield  int
 	authInside atomic.Int32
+	// the same for AuthenticateUser
+	userYield  int
+	userInside atomic.Int32
+	// onAuthorise, if set, is called once from inside the next AuthoriseNewSession ("while the query runs")
+	onAuthorise func()
 }
 
 func newFakeManager() *vFakeManager {
@@ -47,6 +52,13 @@ func (m *vFakeManager) get(UID []byte) *vFakeUser {
 }
 
 func (m *vFakeManager) AuthenticateUser(UID []byte) (int64, int64, error) {
+	if m.userYield > 0 {
+		m.userInside.Add(1)
+		for i := 0; i < m.userYield && m.userInside.Load() < 2; i++ {
+			runtime.Gosched()
+		}
+		defer m.userInside.Add(-1)
+	}
 	m.mu.Lock()
 	defer m.mu.Unlock()
 	u := m.get(UID)
@@ -66,6 +78,13 @@ func (m *vFakeManager) AuthenticateUser(UID []byte) (int64, int64, error) {
 }
 
 func (m *vFakeManager) AuthoriseNewSession(UID []byte, ai usermanager.AuthorisationInfo) error {
+	m.mu.Lock()
+	cb := m.onAuthorise
+	m.onAuthorise = nil
+	m.mu.Unlock()
+	if cb != nil {
+		cb()
+	}
 	if m.authYield > 0 {
 		m.authInside.Add(1)
 		for i := 0; i < m.authYield && m.authInside.Load() < 2; i++ {
